@@ -298,5 +298,4 @@ theorem contfrac_total (s : Strategy) (hs : StratOK s) (targets : List Int) (hne
     _ hne' hsorted hpos' (by omega)
   exact ⟨f, c, hc, contfrac_ok s f targets c hne hpos hc⟩
 
-#print axioms contfrac_total
 end P
